@@ -125,12 +125,15 @@ Definition float_ops : @ops float :=
         (fun x0 x => x0 + (x - x0) * 0.5)%float
         (fun b p => b + (p - b) * 0.5)%float.
 
-(* an f64 cost as a model cost: f64::INFINITY is the model's +infinity *)
-Definition fcost (c : float) : @ecost float := if PrimFloat.eqb c infinity then CInf else CFin c.
+(* an f64 cost as a model cost: f64::INFINITY is the model's +infinity, and so is a NaN cost
+   (Cost1d::cost since /repo d569966: `if cost.is_nan() { Ok(INFINITY) }`; before it a NaN cost made argmin fail) *)
+Definition fcost (c : float) : @ecost float :=
+  if (PrimFloat.eqb c infinity || negb (PrimFloat.eqb c c))%bool then CInf else CFin c.
 
-(* Cost1d::cost: `if x > max || x < min { INFINITY } else { func(x) }` *)
+(* Cost1d::cost: `if !(x >= min && x <= max) { INFINITY } else { func(x) }` — a NaN point is out of bounds
+   (for every other point the same as the earlier `x > max || x < min`) *)
 Definition bounded (lo hi : float) (g : float -> float) (x : float) : @ecost float :=
-  if (PrimFloat.ltb hi x || PrimFloat.ltb x lo)%bool then CInf else fcost (g x).
+  if (PrimFloat.leb lo x && PrimFloat.leb x hi)%bool then fcost (g x) else CInf.
 
 (* NelderMead::terminate, n = 2:  c0 = (ca + cb) / n;  s = sqrt(1/(n-1) * ((ca - c0)^2 + (cb - c0)^2));  s < sd_tolerance.
    An infinite cost makes s NaN: not terminated. *)
@@ -158,7 +161,7 @@ Fixpoint tree_lookup (t : ftree) (x : float) : float :=
       end
   end.
 
-Definition in_bounds (lo hi x : float) : bool := negb (PrimFloat.ltb hi x || PrimFloat.ltb x lo).
+Definition in_bounds (lo hi x : float) : bool := (PrimFloat.leb lo x && PrimFloat.leb x hi)%bool.
 
 (* nelder_mead_1d in binary64: result and the in-bounds evaluations in order *)
 Definition nm_float (g : float -> float) (g0 g1 : float) (max_iter : nat) (lo hi tol : float) : float * list float :=
